@@ -236,6 +236,10 @@ class Negotiated:
         assert self.sent_open is not None
         assert self.received_open is not None
 
+        # RFC 7607: AS 0 is never a peer's AS (with `peer-as auto` nothing else compared it with anything)
+        if self.peer_as == 0:
+            return (2, 2, 'AS 0 in OPEN (RFC 7607)')
+
         if neighbor.session.peer_as and self.peer_as != neighbor.session.peer_as:
             return (
                 2,
@@ -247,7 +251,9 @@ class Negotiated:
         if self.received_open.router_id == RouterID('0.0.0.0'):
             return (2, 3, '0.0.0.0 is an invalid router_id')
 
-        if self.received_open.asn == neighbor.session.local_as:
+        # the peer's TRUE AS (the four octet one when it sent it): compared with the two octet field, which is AS_TRANS
+        # for a large AS, an iBGP session between 4-byte AS speakers never saw its identifier collision
+        if self.peer_as == neighbor.session.local_as:
             # router-id must be unique within an ASN
             if self.received_open.router_id == neighbor.session.router_id:
                 return (
@@ -332,6 +338,11 @@ class RequirePath:
 
         receive = received_open.capabilities.get(Capability.CODE.ADD_PATH, FalseDict())
         send = sent_open.capabilities.get(Capability.CODE.ADD_PATH, FalseDict())
+
+        # RFC 7911 section 4: a Send/Receive value other than 1, 2 or 3 is not understood and the entry is ignored.
+        # Read as a bit mask, 7 brought both directions up and 5 / 6 one of them. (The capability keeps the value
+        # it received, and says "invalid" when printed.)
+        receive = {k: v for k, v in receive.items() if v in (self.RECEIVE, self.SEND, self.BOTH)}
 
         # python 2.4 compatibility mean no simple union but using sets.Set
         union: list[FamilyTuple] = []
